@@ -1,7 +1,7 @@
 #!/bin/sh
 # usage: tools/silence_sweep.sh <seed>...   runs every quick check under each seed, prints one line per run
 cd "$(dirname "$0")/.." || exit 2
-[ -f .cache/sysroot32/ok ] || ./setup.sh >/dev/null 2>&1
+[ -f .cache/sysroot32/ok ] || ./setup.sh >/tmp/sweep_setup_$$.log 2>&1 || { echo "setup failed:"; tail -20 /tmp/sweep_setup_$$.log; }
 for s in "$@"; do
   for i in 01 02 03 04 05 06 07 08 09 10 11 12 13 14 15 16 17 18 19 20; do
     start=$(date +%s)
